@@ -9,4 +9,6 @@ import (
 	_ "verif/internal/props/c15"
 	_ "verif/internal/props/c16"
 	_ "verif/internal/props/c18"
+	_ "verif/internal/props/c19"
+	_ "verif/internal/props/c19"
 )
